@@ -485,8 +485,17 @@ impl<'r> Gen<'r> {
                 30..=39 => Frag::Check(Box::new(Frag::PkH(self.key()))),
                 40..=51 => {
                     // mostly small; sometimes wide (number pushes above 16 need two bytes)
-                    let n = if self.rng.chance(1, 8) { self.rng.range(4, 20) } else { self.rng.range(1, 3) };
-                    let k = self.rng.range(1, n);
+                    // CHECKSIGADD-based multisig has no 20-key limit: go past it now and then
+                    let n = if self.rng.chance(1, 8) {
+                        if self.tap() && self.cfg.repeat_keys && self.rng.chance(1, 3) {
+                            self.rng.range(21, 40)
+                        } else {
+                            self.rng.range(4, 20)
+                        }
+                    } else {
+                        self.rng.range(1, 3)
+                    };
+                    let k = if n > 20 && self.rng.coin() { self.rng.range(21, n) } else { self.rng.range(1, n) };
                     let ks = self.keys(n);
                     let sorted = self.rng.chance(1, 4);
                     match (self.tap(), sorted) {
